@@ -102,8 +102,16 @@ check("C17", "model_checking",
       "TLA+ contract + transcription of labeledSeries.add (TLC exhaustive over permutations), exhaustive (count,threshold) replay, TLC trace validation",
       "DESIGN.md section 7 (C17)")
 
+check("C20", "model_checking",
+      "Prom.tla keeps, per label set, the byte counters, the latency histogram (count, sum, cumulative buckets) and per message the failure counter; "
+      "TLC checks for every sequence of up to 3 observations over a small domain that the state equals the direct sums, and that the historic "
+      "never-incremented failure counter does not. The real prom.Metrics observes up to 10^4 results sequentially and from 16 goroutines; the "
+      "gathered registry is compared by TLC with the sums (BigNat).",
+      "client_golang's registry and histogram are trusted as the observation interface; histogram sum within 1 ns per sample",
+      "TLA+ state machine vs direct sums (TLC exhaustive), TLC trace validation of gathered registries", "DESIGN.md section 7 (C20)")
+
 UNDER = "check under construction in this round (specification and driver not committed yet)"
-for p in ["C05", "C06", "C15", "C18", "C19", "C20"]:
+for p in ["C05", "C06", "C15", "C18", "C19"]:
     NA[p] = UNDER
 NA["C16"] = ("arbitrary-byte crash/hang freedom of parsers has no abstract state machine to specify; deciding it means fuzzing, "
              "a different technique (DESIGN.md section 9)")
